@@ -527,9 +527,9 @@ pub fn gen(id: &str, tier: &str, rng: &mut Rng, emit: &mut dyn FnMut(Op)) {
                 emit_ops(emit, &calls);
             }
         }
-        "C07" => gen_c07(tier, rng, emit),
-        "C08" => gen_c08(tier, rng, emit),
-        "C09" => gen_c09(tier, rng, emit),
+        "C07" => with_oracle_fuzz(tier, rng, emit, &gen_c07),
+        "C08" => with_oracle_fuzz(tier, rng, emit, &gen_c08),
+        "C09" => with_oracle_fuzz(tier, rng, emit, &gen_c09),
         _ => {
             eprintln!("sum: unknown property {}", id);
             std::process::exit(2);
